@@ -19,7 +19,7 @@ def dump_grammars(binary, dialects):
 
     def one(d):
         path = os.path.join(vlib.GEN, "PemGrammar_%s.v" % d)
-        rc, out = vlib.sh([binary, "pem", "--dump-grammar", d, "--out", path], timeout=120)   # a dump takes < 1 s; a hang (first-token hint that never terminates) must not stall the check
+        rc, out = vlib.sh([binary, "pem", "--dump-grammar", d, "--out", path], timeout=300)   # a dump takes < 1 s; a first-token hint that never returns is caught by the dump's own watchdog (exit 3 within seconds)
         if rc != 0:
             return d, False, "dump failed: " + out[-1500:]
         rc, out2 = vlib.run_coqc(os.path.join("gen", "PemGrammar_%s.v" % d), 1200)
@@ -51,17 +51,21 @@ def pem_stage(ctx, dialects=None, with_cases=True):
     for d in dialects:
         ok, log = gr[d]
         ctx["extra_obligations"] += 2          # closure (or exact dangling list) + its corollary
+        for line in log.splitlines():
+            if "{" in line and '"dialect"' in line:      # the dump's summary line (prefixed by "dump failed: " when it exits non-zero)
+                try:
+                    info[d] = json.loads(line[line.index("{"):])
+                except ValueError:
+                    pass
         if ok:
             ctx["extra_discharged"] += 2
+        elif info.get(d, {}).get("hint_hangs"):
+            # the dump's watchdog (harness/src/pem.rs): Matchable::simple of these nodes never returned
+            R.violation("translator-obligation", dict(what="Pem grammar of %s cannot be dumped: the first-token hint (Matchable::simple) of some nodes never returns" % d,
+                                                      file="coq/gen/PemGrammar_%s.v" % d, nodes_whose_hint_never_returns=info[d]["hint_hangs"][:10]), False)
         else:
             R.violation("translator-obligation", dict(what="Pem grammar of %s: generated theorems (pem_closed / pem_dangling_exact) or the dump do not check" % d,
                                                       file="coq/gen/PemGrammar_%s.v" % d, log=log[-2000:]), False)
-        for line in log.splitlines():
-            if line.startswith("{") and '"dialect"' in line:
-                try:
-                    info[d] = json.loads(line)
-                except ValueError:
-                    pass
     cov = dict(pem_dialects=dialects, pem_graphs=[dict(dialect=d, nodes=i.get("nodes"), closed=(not i.get("dangling") and i.get("brackets_closed")),
                                                        dangling=i.get("dangling")) for d, i in sorted(info.items())])
     if with_cases:
